@@ -40,7 +40,14 @@ pub enum MutPlan {
 #[derive(Serialize, Deserialize, Clone, Debug, PartialEq)]
 pub struct SubjectSpec {
     pub scenario: String,
+    /// another scenario of the same message type (field donor)
     pub donor: String,
+    /// a scenario of any message type (cross-type field donor: fields the type's own scenarios never carry)
+    #[serde(default)]
+    pub donor2: Option<String>,
+    /// start from the unmutated draw of an earlier subject (same headers, UETR, references) instead of a fresh draw
+    #[serde(default)]
+    pub sibling_of: Option<usize>,
     pub plan: MutPlan,
 }
 
@@ -189,14 +196,40 @@ pub fn apply_op(g: &mut Value, op: &MutOp) -> bool {
 }
 
 /// One rule-directed mutation proposal (typed by JSON key), as an explicit op.
-fn propose(g: &Value, donor: &Value, r: &mut Sm) -> Option<MutOp> {
+fn propose(g: &Value, donor: &Value, donor2: &Value, r: &mut Sm) -> Option<MutOp> {
     let mut ls = vec![];
     leaves(&g["fields"], vec!["fields".into()], &mut ls);
     if ls.is_empty() {
         return None;
     }
     let s = |x: &&str| Value::String(x.to_string());
-    match r.below(11) {
+    match r.below(13) {
+        11 | 12 => {
+            // cross-type donor: a field object under a key this type's scenarios may never carry
+            let df = donor2.get("fields")?.as_object()?;
+            let mut keys: Vec<&String> = df.keys().filter(|k| *k != "#").collect();
+            let seq_keys: Vec<(&String, &Value)> = df.get("#").and_then(|a| a.as_array()).and_then(|a| a.first()).and_then(|o| o.as_object()).map(|o| o.iter().collect()).unwrap_or_default();
+            if keys.is_empty() && seq_keys.is_empty() {
+                return None;
+            }
+            let (k, v): (String, Value) = if !seq_keys.is_empty() && (keys.is_empty() || r.chance(1, 3)) {
+                let (k, v) = seq_keys[r.below(seq_keys.len())];
+                (k.clone(), v.clone())
+            } else {
+                let k = keys.swap_remove(r.below(keys.len())).clone();
+                let v = df[&k].clone();
+                (k, v)
+            };
+            if r.chance(1, 3) {
+                if let Some(Value::Array(a)) = g["fields"].get("#") {
+                    if !a.is_empty() {
+                        let i = r.below(a.len());
+                        return Some(MutOp::Put { path: vec!["fields".into(), "#".into(), i.to_string()], key: k, value: v });
+                    }
+                }
+            }
+            Some(MutOp::Put { path: vec!["fields".into()], key: k, value: v })
+        }
         0..=3 => {
             let cand: Vec<_> = ls.iter().filter(|(_, l)| *l).collect();
             if cand.is_empty() {
@@ -592,10 +625,11 @@ fn run_phase(ctx: &Arc<seam::RunCtx>, e_h: u64, subjects: &Arc<Vec<Subject>>, ca
             }
         }));
     }
-    // closing reads: a full validation and a snapshot of every subject
+    // closing reads: a full validation, a stop-on-first validation and a snapshot of every subject
     let mut all: Vec<Op> = ops.to_vec();
     for m in 0..subjects.len() {
         all.push(Op { caller: m, subject: m, kind: OpKind::VnrFull, jump_ns: 0 });
+        all.push(Op { caller: m + 2, subject: m, kind: OpKind::VnrStop, jump_ns: 0 });
         all.push(Op { caller: m + 1, subject: m, kind: OpKind::Snapshot, jump_ns: 0 });
     }
     for (seq, op) in all.iter().enumerate() {
@@ -653,7 +687,7 @@ impl Engine for C13 {
         let mut s = Sm(derive(run_seed, "sched", 0));
         let mut cr = Sm(derive(run_seed, "clock", 0));
         let n_subj = *w.pick(&[1usize, 1, 1, 2, 2, 3]);
-        let mut subjects = vec![];
+        let mut subjects: Vec<SubjectSpec> = vec![];
         for k in 0..n_subj {
             // the first subject walks the scenario files; further subjects are drawn
             let idx = if k == 0 { (i % nf as u64) as usize } else { w.below(nf) };
@@ -661,7 +695,12 @@ impl Engine for C13 {
             let same: Vec<&scen::Scenario> = env.scenarios.iter().filter(|x| x.mt == sc.mt).collect();
             let donor = same[w.below(same.len())].rel.clone();
             let target = *w.pick(&[0usize, 1, 1, 2, 2, 3, 3, 4]);
-            subjects.push(SubjectSpec { scenario: sc.rel.clone(), donor, plan: MutPlan::Climb { seed: derive(run_seed, "climb", k as u64), target, attempts: 14 } });
+            let donor2 = Some(env.scenarios[w.below(nf)].rel.clone());
+            // a later subject is, one time in three, a sibling of the first: same draw, its own mutations
+            let sibling_of = if k > 0 && w.chance(1, 3) { Some(0) } else { None };
+            let (scenario, donor) = if sibling_of.is_some() { (subjects[0].scenario.clone(), subjects[0].donor.clone()) } else { (sc.rel.clone(), donor) };
+            let attempts = if target >= 2 { 36 } else { 14 };
+            subjects.push(SubjectSpec { scenario, donor, donor2, sibling_of, plan: MutPlan::Climb { seed: derive(run_seed, "climb", k as u64), target, attempts } });
         }
         let callers = 1 + s.below(4);
         let n_ops = 6 + s.below(19);
@@ -704,8 +743,9 @@ impl Engine for C13 {
         ));
         let mut scs = vec![];
         for s in &spec.subjects {
+            let d2 = s.donor2.as_ref().and_then(|d| scen::find(&env.scenarios, d)).cloned();
             match (scen::find(&env.scenarios, &s.scenario), scen::find(&env.scenarios, &s.donor)) {
-                (Some(a), Some(b)) => scs.push((a.clone(), b.clone())),
+                (Some(a), Some(b)) => scs.push((a.clone(), b.clone(), d2)),
                 _ => {
                     out.harness_error = Some(format!("scenario {} / {} not found", s.scenario, s.donor));
                     return (out, None);
@@ -719,16 +759,29 @@ impl Engine for C13 {
         let res = on_fresh_thread(move || {
             let mut out = o2;
             let _a = seam::attach(&ctx2);
+            // key this (scheduler) thread's RandomState now, under E_w, so that no
+            // later map created on it draws from the operations-phase stream
+            let _ = std::collections::hash_map::RandomState::new();
             let mut resolved = spec2.clone();
             // ---- generation phase (under E_w): subjects
             let mut subjects: Vec<Subject> = vec![];
-            for (k, (ss, (sc, donor_sc))) in spec2.subjects.iter().zip(scs.iter()).enumerate() {
+            let mut base_draws: Vec<Value> = vec![];
+            for (k, (ss, (sc, donor_sc, donor2_sc))) in spec2.subjects.iter().zip(scs.iter()).enumerate() {
                 let generate = |v: &Value| datafake_rs::DataGenerator::from_value(v.clone()).ok().and_then(|g| g.generate().ok());
-                let Some(mut g) = generate(&sc.value) else {
+                let drawn = match ss.sibling_of.and_then(|j| base_draws.get(j)) {
+                    Some(b) => Some(b.clone()),
+                    None => generate(&sc.value),
+                };
+                let Some(mut g) = drawn else {
                     out.discard = Some("scenario draw failed".into());
                     return (out, None);
                 };
+                base_draws.push(g.clone());
+                if ss.sibling_of.is_some() {
+                    out.count("probe.sibling_subject_same_headers", 1);
+                }
                 let donor = generate(&donor_sc.value).unwrap_or(Value::Null);
+                let donor2 = donor2_sc.as_ref().and_then(|d| generate(&d.value)).unwrap_or(Value::Null);
                 let mut accepted: Vec<MutOp> = vec![];
                 match &ss.plan {
                     MutPlan::Explicit(ops) => {
@@ -745,9 +798,9 @@ impl Engine for C13 {
                             if cur >= *target {
                                 break;
                             }
-                            let Some(op) = propose(&g, &donor, &mut r) else { continue };
+                            let Some(op) = propose(&g, &donor, &donor2, &mut r) else { continue };
                             let saved = g.clone();
-                            if !apply_op(&mut g, &op) {
+                            if !apply_op(&mut g, &op) || g == saved {
                                 g = saved;
                                 continue;
                             }
@@ -839,6 +892,12 @@ impl Engine for C13 {
                     for c in codes {
                         out.count(&format!("pair.MT{}:{c}", s.mt), 1);
                     }
+                    if !codes.is_empty() {
+                        let mut set: Vec<&String> = codes.iter().collect();
+                        set.sort();
+                        set.dedup();
+                        out.harvest.push(format!("MT{}|{}", s.mt, set.iter().map(|c| c.as_str()).collect::<Vec<_>>().join("+")));
+                    }
                     let n_ops = a.history.recs.iter().filter(|r| r.2 == m).count();
                     if !l.is_empty() && n_ops >= 2 {
                         nontrivial = true;
@@ -873,6 +932,13 @@ impl Engine for C13 {
             for k in 0..spec.subjects.len() {
                 let mut s = spec.clone();
                 s.subjects.remove(k);
+                for sub in s.subjects.iter_mut() {
+                    sub.sibling_of = match sub.sibling_of {
+                        Some(j) if j == k => None,
+                        Some(j) if j > k => Some(j - 1),
+                        x => x,
+                    };
+                }
                 s.ops = s.ops.into_iter().filter(|o| o.subject % spec.subjects.len() != k).map(|mut o| {
                     let m = o.subject % spec.subjects.len();
                     o.subject = if m > k { m - 1 } else { m };
